@@ -13,9 +13,21 @@ from eglib.driver import Violation
 from eglib.model import ANY, ERROR, NONNEIGHBOR, ref_neighbors, ref_reach
 
 
-def cases(max_v=8, max_e=14, classes=6, settings=True):
-    def mk(g, uni, s, d, u, via, res, cache=False, pad=0, swap=None, take=0, none_ends=()):
+def cases(max_v=8, max_e=14, classes=6, settings=True, big=False):
+    def mk(g, uni, s, d, u, via, res, cache=False, pad=0, swap=None, take=0, none_ends=(), scale=None):
         nv = g["nv"]
+        if scale and not g.get("eq"):
+            # a scaled-up world: a long chain in front of the start vertex and / or a vertex with very many links
+            g = dict(g, scale=scale)
+            if uni is not None:
+                u0 = list(dict.fromkeys(x % nv for x in uni)) or [s % nv]
+                s0 = u0[s % len(u0)]
+            else:
+                s0 = s % nv
+            if scale.get("chain"):
+                scale["chain"][1] = s0     # the chain leads to the start vertex
+            if scale.get("hub"):
+                scale["hub"][0] = s0       # ... and the start vertex is the one with very many links
         if uni is not None:
             uni = list(dict.fromkeys(x % nv for x in uni)) or [s % nv]
             start = uni[s % len(uni)]
@@ -48,6 +60,7 @@ def cases(max_v=8, max_e=14, classes=6, settings=True):
         st.one_of(st.none(), st.tuples(st.integers(0, 7), st.integers(0, 7))),
         st.integers(0, 4),
         st.one_of(st.just(()), st.just(()), st.lists(st.tuples(st.integers(0, 13), st.integers(0, 1)), min_size=1, max_size=2)),
+        graphs.scales(hubs=(70, 340, 1300) if big else (70, 340), chains=(260, 300), rate=40 if big else 80),
     )
 
 
@@ -72,9 +85,15 @@ class Setup:
             from edgegraph.structure import Vertex
 
             self.pad = [Vertex(attributes={"i": 10000 + k}) for k in range(case.get("pad", 0))]
-            self.uni = Universe(vertices=[self.vs[m] for m in case["uni"]] + self.pad)
-            self.mem = set(case["uni"])
+            leaves, chain = graphs.scale_layout(case["g"])
+            # the added chain always belongs to the universe, the added hub leaves in every other case
+            extra = list(chain) + (list(leaves) if len(case["uni"]) % 2 else [])
+            self.uni = Universe(vertices=[self.vs[m] for m in case["uni"]] + [self.vs[i] for i in extra] + self.pad)
+            self.mem = set(case["uni"]) | set(extra)
         self.start = case["start"]
+        chain = graphs.scale_layout(case["g"])[1]
+        if len(chain):
+            self.start = chain[0]       # start at the far end of the chain: the generated graph lies >= 260 levels deep
         self.d, self.u = case["d"], case["u"]
         self.f = graphs.make_filter(case["via"])
         self.ff = graphs.real_filter2(self.f, self.vi, self.li)
